@@ -54,6 +54,7 @@ def GivenOk : Expr → Bool
   | .lower e => GivenOk e
   | .cref e => GivenOk e
   | .vref e => GivenOk e
+  | .present _ c => GivenOk c
   | _ => true
 def GivenOkList : List Expr → Bool
   | [] => true
@@ -75,6 +76,7 @@ def ivars : Expr → List Nat
   | .lower e => ivars e
   | .cref e => ivars e
   | .vref e => ivars e
+  | .present _ c => ivars c
   | _ => []
 def ivarsList : List Expr → List Nat
   | [] => []
